@@ -203,7 +203,12 @@ def part_hedge(ctx, broken):
     per = 100 if ctx.quick else 1000
     recs = []
     for gamma, n in HEDGE_CFGS:
-        recs += S.hedge_drive(ctx.rng, per, gamma, n)
+        try:
+            recs += S.hedge_drive(ctx.rng, per, gamma, n)
+        except Exception as ex:     # the hedge itself failed on a portfolio of n strategies: that IS the observable (no strategy proposes anything)
+            _viol(ctx, "hedge-choice", f"ESSearchHedge with a portfolio of {n} strategies (gamma={gamma}) raised {type(ex).__name__}: {str(ex)[:160]} "
+                                       "instead of drawing a strategy and letting it propose", dict(kind="hedge-crash", gamma=gamma, n=n))
+            break
     bad_mon = 0
     for r in recs:
         msg = S.hedge_monitor(r)
@@ -294,5 +299,14 @@ def replay(ctx, rp):
         print(f"replay: hedge g={fresh['g']} gamma={fresh['gamma']} -> prob={fresh['prob']} chosen={fresh['chosen']}")
         print("replay:", msg or "property holds on this input now")
         return 1 if msg else 0
+    if kind == "hedge-crash":
+        import random
+        try:
+            S.hedge_drive(random.Random(0), 20, r["gamma"], r["n"])
+            print("replay: the hedge draws and proposes for this portfolio now")
+            return 0
+        except Exception as ex:
+            print(f"replay: ESSearchHedge with {r['n']} strategies raised {type(ex).__name__}: {ex}")
+            return 1
     print("replay: no concrete input in this replay file (broken obligation):", r)
     return 1
